@@ -215,6 +215,9 @@ def check(db, rep):
     # ---------------- r11
     r11 = rep.rule('r11', 'STRUCTURE-GUARD: in the model layer every E()/T()/B() access to a value or a typification is dominated by a test of the structure of that very object', 5)
     rep.note('r11_access_sites', structure_guard_rule(db, r11))
+    r12 = rep.rule('r12', 'VALUES-TOTAL: the values facet reads an optional (a looked-up constituent, a stored value, a typification) only under a has_value() test of that very object: '
+                          'pruning and validating stored data answers, it never throws out of the middle of an invalidation', 8)
+    _values_total(db, r12)
     # ---------------- r3
     r3 = rep.rule('r3', 'CO-UPDATE: a mutator that changes a definition or erases a constituent resets the value and the calculated flag of the target on every success path', 2)
     val_reset = (VALUES + '::ResetFor', VALUES + '::Erase')
@@ -616,3 +619,35 @@ def structure_guard_rule(db, rule, prefixes=('ccl::semantic::',)):
             else:
                 rule.violation(inst, f.loc(n), '`%s` dereferences the %s alternative but no dominating test shows that this object is a %s (a test on a different object does not: after a definition edit the stored data and the new typification can have different shapes)' % ((n.get('txt') or acc)[:40], kind, kind))
     return n_sites
+
+
+def _values_total(db, rule):
+    """Every std::optional access (value(), *, ->) in a method of rsValuesFacet is dominated by has_value() of the same object. The validation
+    of stored data (CheckBasicElements) runs inside ResetDependants; an exception there leaves the definition changed, the structure with its
+    old data under the new typification, and the dependants visited later with their old values."""
+    from engine.cfgq import guard_atoms
+    VF = 'ccl::semantic::rsValuesFacet'
+    fs = [f for f in db.functions if f.body >= 0 and f.has_cfg() and (f.name.startswith(VF + '::'))]
+    if not fs:
+        rule.broken('anchor vanished: rsValuesFacet has no analysable method')
+        return
+    n_sites = 0
+    for f in sorted(fs, key=lambda x: x.name):
+        for n in f.calls():
+            if n.get('cs') not in ('std::optional::value', 'std::optional::operator*', 'std::optional::operator->'):
+                continue
+            o = f.stmts[n['obj']] if 'obj' in n else (f.stmts[n['args'][0]] if n.get('args') else None)
+            if o is None:
+                continue
+            n_sites += 1
+            root = f.root_of(o)
+            pos = f.position_of(n)
+            atoms = guard_atoms(f, pos) if pos else []
+            inst = '%s:%s' % (f.name.split('::')[-1], (o.get('txt') or '')[:50].replace(' ', ''))
+            if root is not None and any(a[0] == 'has_value' and a[1] == root and a[2] for a in atoms):
+                rule.ok(inst, 'dominated by has_value() on the same object', f.loc(n))
+            else:
+                rule.violation(inst, f.loc(n), '`%s` is read without a has_value() test of the same object: for a typification whose base is not a constituent (the empty set literal has type ℬ(R0)) '
+                               'the lookup is empty and std::bad_optional_access leaves SetExpressionFor in the middle of ResetDependants - the structure keeps its data under the new type and the dependants visited later keep their old values' % (n.get('txt') or '')[:90])
+    if not n_sites:
+        rule.broken('rsValuesFacet reads no optional: the rule has lost its sites')
